@@ -16,6 +16,7 @@ THEOREMS = [
     "Astm.C13.not_used_stores_nothing", "Astm.C13.set_stored_iff_member", "Astm.C13.constant_stored_iff_equal",
     "Astm.C13.integer_stored_iff_int", "Astm.C13.check_digits_exact", "Astm.C13.datetime_stored_exact",
     "Astm.C13.date_stored_exact", "Astm.C13.stored_value_reads_back", "Astm.C13.integer_reads_back", "Astm.C13.record_reads_back", "Astm.C13.shipped_schemas_read_back", "Astm.C13.too_many_values_error", "Astm.C13.example_calendar",
+    "Astm.C13.date_object_reads_back", "Astm.C13.time_object_reads_back", "Astm.C13.datetime_object_reads_back",
     "Astm.C13.list_operation_all_or_nothing", "Astm.C13.list_operation_stores_checked_components",
     "Astm.C13.anchored_code_keeps_no_other_state", "Astm.C13.anchored_code_keeps_its_signatures",
 ]
@@ -305,6 +306,67 @@ def run(ctx):
         if ml is not None and codecio.canon_model(ml) != gs:
             dts.disagree(case, gs, ml)
     streams.append(dts)
+
+    # date / time / datetime *objects* (what a program assigns): stored as the digits of the field's format, which the
+    # same field accepts unchanged as wire text and which read back to the same instant
+    dob = Stream("date-time-objects")
+    import datetime as _dtm
+    objs = []
+    for _ in range(3000 if ctx.thorough else 500):
+        y = r.choice([1, 9, 33, 100, 999, 1000, 1600, 1900, 1999, 2000, 2024, 2100, 9999, r.randrange(1, 10000)])
+        m_ = r.randrange(1, 13)
+        leap = (y % 4 == 0 and y % 100 != 0) or y % 400 == 0
+        dim = [31, 29 if leap else 28, 31, 30, 31, 30, 31, 31, 30, 31, 30, 31][m_ - 1]
+        d_ = r.choice([1, dim, r.randrange(1, dim + 1)])
+        hh, mi_, ss_ = r.choice([0, 23, r.randrange(24)]), r.choice([0, 59, r.randrange(60)]), r.choice([0, 59, r.randrange(60)])
+        us = r.choice([0, 0, 1, 999999])
+        kind = r.choice(["date", "time", "datetime"])
+        if kind == "date":
+            obj = r.choice([_dtm.date(y, m_, d_), _dtm.datetime(y, m_, d_, hh, mi_, ss_, us)])
+            want = "%04d%02d%02d" % (y, m_, d_)
+        elif kind == "time":
+            obj = r.choice([_dtm.time(hh, mi_, ss_, us), _dtm.datetime(y, m_, d_, hh, mi_, ss_, us)])
+            want = "%02d%02d%02d" % (hh, mi_, ss_)
+        else:
+            obj = r.choice([_dtm.datetime(y, m_, d_, hh, mi_, ss_, us), _dtm.date(y, m_, d_)])
+            if not isinstance(obj, _dtm.datetime):
+                hh = mi_ = ss_ = 0
+            want = "%04d%02d%02d%02d%02d%02d" % (y, m_, d_, hh, mi_, ss_)
+        objs.append((kind, obj, want, (y, m_, d_, hh, mi_, ss_)))
+    lines = ["dateobj %s %d %d %d %d %d %d" % ((k,) + parts) for k, _o, _w, parts in objs]
+    model = common.drive(lines) if ctx.driver_ok else [None] * len(lines)
+    cls_of_ = {"date": fields.DateField, "time": fields.TimeField, "datetime": fields.DateTimeField}
+    for (k, obj, want, parts), ml in zip(objs, model):
+        fobj = cls_of_[k](name="x")
+        case = {"kind": k, "object": repr(obj)}
+        dob.case(case)
+        dob.count("%s<-%s" % (k, type(obj).__name__))
+        try:
+            got = fobj._set_value(obj)
+        except Exception as e:  # noqa
+            dob.fail(dict(case, error=repr(e)[:100]), "a %s object is refused by a %s field" % (type(obj).__name__, k),
+                     "date-time-objects/refused")
+            continue
+        if got != want:
+            dob.fail(dict(case, stored=got, expected=want), "a %s object is stored as %r, its own digits are %r" % (
+                type(obj).__name__, got, want), "date-time-objects/digits")
+            continue
+        try:
+            again = fobj._set_value(got)
+            back = fobj._get_value(got)
+        except Exception as e:  # noqa
+            dob.fail(dict(case, stored=got, error=repr(e)[:100]), "the digits stored for an object are not accepted / readable as "
+                     "wire text by the same field", "date-time-objects/read-back")
+            continue
+        same = again == got and (
+            (k == "time" and back == _dtm.time(*parts[3:])) or
+            (k == "date" and back == _dtm.datetime(*parts[:3])) or
+            (k == "datetime" and back == _dtm.datetime(*parts)))
+        if not same:
+            dob.fail(dict(case, stored=got, read_back=repr(back)), "the stored digits read back to another instant", "date-time-objects/read-back")
+        if ml is not None and codecio.canon_model(ml) != "ok t" + codecio.cps(got):
+            dob.disagree(case, "ok t" + codecio.cps(got), ml)
+    streams.append(dob)
 
     # int() spellings: all strings of length 1 and 2 over code points < 256 (+ a few longer)
     it = Stream("integer-spellings")
